@@ -307,7 +307,7 @@ Qed.
 
 Lemma In_zseq a n x : In x (zseq a n) <-> a <= x < a + Z.of_nat n.
 Proof.
-  unfold zseq. rewrite in_map_iff. split.
+  rewrite zseq_map_seq. rewrite in_map_iff. split.
   - intros (i & <- & Hi). apply in_seq in Hi. lia.
   - intros H. exists (Z.to_nat (x - a)). split; [lia|]. apply in_seq. lia.
 Qed.
